@@ -695,6 +695,12 @@ func equivalentCheckConfigInV2(
 	ruleType check.RuleType,
 	checkConfig bufconfig.CheckConfig,
 ) (bufconfig.CheckConfig, error) {
+	if checkConfig.Disabled() {
+		// The checks are switched off for this module, i.e. an ignore path was the module
+		// directory itself. There are no rules to translate, and the equivalent is to keep
+		// the checks switched off.
+		return bufconfig.NewDisabledCheckConfig(bufconfig.FileVersionV2), nil
+	}
 	// No need for custom lint/breaking plugins since there's no plugins to migrate from <=v1.
 	// TODO: If we ever need v3, then we will have to deal with this.
 	client, err := bufcheck.NewClient(logger, bufcheck.NewLocalRunnerProvider(
